@@ -88,7 +88,7 @@ class Runner:
             op, *args = h.call(type(ins).final.fget, ins).value
             if op.startswith('_'):
                 continue
-            if args and isinstance(args[0], str) and op.rstrip('%&!#$@') in ('pushrefl', 'readl', 'storel', 'readidxl', 'storeidxl'):
+            if args and isinstance(args[0], str) and op.rstrip('%&!#$@') in ('pushrefl', 'readl', 'storel', 'readidxl', 'storeidxl', 'initarrl'):
                 args = [memlayout.get_local_var_idx(self.routine, args[0])] + list(args[1:])
             if op == 'io':
                 from contracts.vm import QVM_DEVICES
@@ -467,4 +467,98 @@ CONTRACTS += [
              cases=[(a, b) for a in ('INTEGER', 'LONG', 'SINGLE', 'DOUBLE', 'STRING') for b in ('STRING', 'INTEGER', 'DOUBLE')],
              assumed=__import__('contracts.c_input', fromlist=['ASSUMED']).ASSUMED,
              trusted=['numeric items are the empty item here (numeric texts: data.read_numeric); string items symbolic']),
+]
+
+
+# ------------------------------------------------------------------ DIM of an array
+
+def body_dim(h, rank, const_bounds, bt):
+    """DIM x(lb0 TO ub0 [, lb1 TO ub1]) AS T: the bounds are evaluated left to right, converted to LONG and
+    written - with the rank and the element size of T - to the header the layout reserves for x (static bounds), or
+    used to allocate a fresh array whose reference is stored in x's cell (dynamic bounds); lbound > ubound is
+    "Subscript out of range"; nothing else is written"""
+    from qvm.cpu import Array
+    cu = CompilationUnit()
+    tb = object.__new__(TypeBlock)
+    tb.name = 'rec'
+    tb.fields = {'a': Type.INTEGER, 'b': Type.LONG, 'c': Type.INTEGER}
+    cu.user_types['rec'] = tb
+    base = udt('rec') if bt == 'rec' else TN[bt]
+    r = cu.main_routine
+    r.local_vars['pad'] = Type.LONG
+    dims, kids, cells = [], [], []
+    for d in range(rank):
+        lo, hi = _LvStub(Type.INTEGER), _LvStub(Type.LONG)
+        kids += [lo, hi]
+        cells += [mkcell(h, CT.INTEGER, f'lb{d}'), mkcell(h, CT.LONG, f'ub{d}')]
+        dr = object.__new__(ArrayDimRange)
+        dr.lbound, dr.ubound = lo, hi
+        dims.append(dr)
+    at = Type(base._type, is_array=True, user_type_name=base.user_type_name,
+              array_dims=[ArrayDimRange(NumericLiteral(0, Type.INTEGER), NumericLiteral(1, Type.INTEGER))] * rank if const_bounds else None,
+              is_nodim_array=not const_bounds)
+    r.local_vars['x'] = at
+    r.local_vars['after'] = Type.LONG
+
+    class _Decl:
+        pass
+    decl = _Decl()
+    decl.name = 'x'
+    decl.type = at
+    decl.array_dims = dims
+    decl.array_dims_are_const = const_bounds
+    decl.var = r.get_variable('x')
+    code = qvm_codegen.QvmCode()
+    cg = ChildGen(None, kids)
+    cg.compilation = cu
+    out = h.call(qvm_codegen.gen_static_array_init, decl, code, cg)
+    if not out.returned:
+        h.prove('generator.no_exception', False, detail=repr(out))
+        return
+    esize = memlayout.get_type_size(cu, base)
+    vi = memlayout.get_local_var_idx(r, 'x')
+    fsize = memlayout.get_local_vars_size(r)
+    F = Seg(h, 'frame', cls=CallFrame, other_type=CT.LONG, size=fsize)
+    run = Runner(h, cu, r, F.seg)
+    bad = run.run(code._instrs, cells)
+    lbs = [cells[2 * d].value for d in range(rank)]
+    ubs = [cells[2 * d + 1].value for d in range(rank)]
+    ok_bounds = land(*[lb <= ub for lb, ub in zip(lbs, ubs)])
+    if bad is not None:
+        t = bad.raised(Trapped) and bad.exc.trap_code == TrapCode.INDEX_OUT_OF_RANGE
+        h.prove('only_subscript_out_of_range_can_occur', t, detail=repr(bad))
+        h.prove('trap_only_if_a_lower_bound_exceeds_its_upper_bound', lnot(ok_bounds))
+        return
+    h.prove('reversed_bounds_trap', ok_bounds)
+    stack_after(h, run.cpu, 0)
+    if const_bounds:
+        hdr = [(vi + 1, rank, 'rank'), (vi + 2, esize, 'element_size')]
+        for d in range(rank):
+            hdr += [(vi + 3 + 2 * d, lbs[d], f'lbound{d}'), (vi + 4 + 2 * d, ubs[d], f'ubound{d}')]
+        for idx, v, tag in hdr:
+            c = F.cell(h, idx)
+            h.prove(f'header.{tag}', c is not None and c.type == CT.LONG and same(c.value, v))
+        F.prove_only_written(h, 'only_the_header_of_x_written', [i for i, _v, _t in hdr])
+        return
+    c = F.cell(h, vi)
+    okc = c is not None and c.type == CT.REFERENCE and isinstance(c.value.segment, Array) and c.value.index == 0
+    h.prove('variable_holds_a_reference_to_a_fresh_array', okc)
+    F.prove_only_written(h, 'only_the_cell_of_x_written', [vi])
+    if okc:
+        seg = c.value.segment
+        hc = seg.cells
+        def at_(i):
+            return h.at(hc, i) if h.symbolic else hc[i]
+        want = [(1, rank), (2, esize)]
+        for d in range(rank):
+            want += [(3 + 2 * d, lbs[d]), (4 + 2 * d, ubs[d])]
+        for i, v in want:
+            cc = at_(i)
+            h.prove(f'array_header.{i}', cc is not None and cc.type == CT.LONG and same(cc.value, v))
+
+
+CONTRACTS += [
+    Contract('stmt.dim', PROPS, ['qbee.qvm_codegen:gen_static_array_init', 'qvm.cpu:QvmCpu._exec_initarrl', 'qvm.cpu:QvmCpu._exec_allocarr'],
+             body_dim, cases=[(rk, cb, bt) for rk in (1, 2) for cb in (True, False) for bt in ('INTEGER', 'rec')],
+             trusted=['bounds are an INTEGER and a LONG expression (conversions: cpu.conv); rank 1 and 2']),
 ]
